@@ -5,9 +5,10 @@ use pv::fl::Fl;
 use pv::{json, Collector, Value};
 
 /// numeric tolerance: KTOL ulps (of the component type) of the magnitude the error scales with.
-/// Calibration on the pinned tree: largest observed error is 1.0 ulp-of-scale (f32 and f64; see
-/// max_err_over_tol in the evidence = 1/16), so 16 gives 16x slack; 16 * 2^-23 = 1.9e-6 (f32)
-/// relative to the range, far below any real defect (>= 1e-3 of the range).
+/// Calibration on the pinned tree (quick and thorough lattices, f32 and f64): the largest observed
+/// error is 1.14 ulp-of-scale (mix hue arc; max_err_over_tol = 0.071 in the evidence), the polar
+/// route of the Lab-like colour schemes reaches 4.9 of its 64 ulps (0.077): >= 13x slack over
+/// rounding; 16 * 2^-23 = 1.9e-6 (f32) relative to the range, far below any real defect (>= 1e-3).
 pub const KTOL: f64 = 16.0;
 /// conversions to the polar sibling and back (atan2, hypot, sin, cos in the component type)
 pub const KPOLAR: f64 = 64.0;
